@@ -82,6 +82,8 @@ def npOf (j : Json) : List Nat :=
   | _ => []
 
 def reprCase (j rc : Json) : Except String Json := do
+  if let .ok (.str why) := rc.getObjVal? "skip" then
+    return Json.mkObj [("skip", true), ("why", s!"value outside the modelled kinds: {why}")]
   let tbl ← (match rc.getObjVal? "limits" with
     | .ok (.arr a) => a.toList.mapM (fun e => match e with
         | .arr #[.str n, v] => do return (n, (← v.getNat?))
